@@ -16,6 +16,8 @@ import (
 	"k8s.io/apimachinery/pkg/apis/meta/v1/unstructured"
 
 	"helm.sh/helm/v4/pkg/action"
+	rspb "helm.sh/helm/v4/pkg/release/v1"
+	"helm.sh/helm/v4/pkg/storage/driver"
 
 	"verif/harness/internal/eng"
 	"verif/harness/internal/hx"
@@ -198,4 +200,113 @@ func c07CoqStamps(sts []c07Stamp) string {
 			c07CoqStrMap(s.Labels), c07CoqStrMap(s.Annots), hx.CoqBool(s.Owned), res))
 	}
 	return hx.CoqList(it)
+}
+
+var c07VerbCtor = map[string]string{"GET": "VGet", "POST": "VCreate", "PATCH": "VPatch", "PUT": "VPatch", "DELETE": "VDelete"}
+
+// c07CoqLogs: per step, the first (manifest resources + 1) requests of an install / upgrade as
+// they arrived at the server ([] for other steps) - what Run/RunC07.v compares with the model's
+// pre-flight GETs.
+func c07CoqLogs(c c07Case, o c07Obs) string {
+	var it []string
+	for i, s := range c.H.Steps {
+		var rq []string
+		if s.Op != nil && (s.Op.Kind == "install" || s.Op.Kind == "upgrade") && i < len(o.Log) {
+			for j, q := range o.Log[i] {
+				if j > len(s.Op.Manifest) {
+					break
+				}
+				rq = append(rq, fmt.Sprintf("(%s, %s)", c07VerbCtor[q.Method], hx.CoqStr(q.Key)))
+			}
+		}
+		it = append(it, hx.CoqList(rq))
+	}
+	return hx.CoqList(it)
+}
+
+// clause 6 of the oracle (request level): before the first request that creates, changes or
+// deletes anything, install and upgrade have looked up (GET) every resource they would newly
+// create - otherwise they cannot have refused "before creating, changing or deleting any
+// resource".  Every install / upgrade of the history that sent a mutating request.
+func c07PreflightOracle(c c07Case, o c07Obs, add func(sig, what string)) {
+	for i, s := range c.H.Steps {
+		if s.Op == nil || i >= len(o.Log) || i >= len(o.Obs.Steps) || (s.Op.Kind != "install" && s.Op.Kind != "upgrade") {
+			continue
+		}
+		first := -1
+		for j, q := range o.Log[i] {
+			if q.Method != "GET" {
+				first = j
+				break
+			}
+		}
+		if first < 0 {
+			continue
+		}
+		// keys the operation would newly create: not in the manifest of the revision it starts from
+		cur := map[string]bool{}
+		if s.Op.Kind == "upgrade" {
+			var prev []eng.LedgerRow
+			for j := i - 1; j >= 0; j-- {
+				if c.H.Steps[j].Op != nil {
+					prev = o.Obs.Steps[j].Ledger
+					break
+				}
+			}
+			for j := len(prev) - 1; j >= 0; j-- {
+				if prev[j].Status == "deployed" {
+					cur = c07Keys(prev[j].Manifest)
+					break
+				}
+			}
+			if len(cur) == 0 && len(prev) > 0 {
+				cur = c07Keys(prev[len(prev)-1].Manifest)
+			}
+		}
+		for _, m := range s.Op.Manifest {
+			k := m.Key()
+			if cur[k] {
+				continue
+			}
+			seen := false
+			for _, q := range o.Log[i][:first] {
+				if q.Method == "GET" && q.Key == k {
+					seen = true
+				}
+			}
+			if !seen {
+				add("C07:mutation-before-ownership-lookup", fmt.Sprintf("step %d (%s, scenario %s): %s %s was sent before any GET of %s, which the operation would newly create",
+					i, s.Op.Kind, c.Scenario, o.Log[i][first].Method, o.Log[i][first].Key, k))
+			}
+		}
+	}
+}
+
+// c07Ledger: the stored revisions as eng prints them (own copy: the C07 binary is built from the
+// c07*.go files only)
+func c07Ledger(inner driver.Driver) []eng.LedgerRow {
+	rs, _ := inner.List(func(*rspb.Release) bool { return true })
+	var out []eng.LedgerRow
+	for _, x := range rs {
+		row := eng.LedgerRow{Rev: x.Version, Manifest: eng.ParseManifest(x.Manifest), Hooks: eng.ParseHooks(x.Hooks)}
+		if x.Info != nil {
+			row.Status = string(x.Info.Status)
+		}
+		if x.Chart != nil && x.Chart.Metadata != nil {
+			fmt.Sscanf(x.Chart.Metadata.Version, "0.%d.0", &row.ChartID)
+		}
+		if v, ok := x.Config["v"]; ok {
+			switch n := v.(type) {
+			case float64:
+				row.ValsID = int(n)
+			case int:
+				row.ValsID = n
+			case int64:
+				row.ValsID = int(n)
+			}
+		}
+		out = append(out, row)
+	}
+	sort.Slice(out, func(i, j int) bool { return out[i].Rev < out[j].Rev })
+	return out
 }
